@@ -32,7 +32,9 @@ RULE = ('seeded generator over the 9 methods of the test interface c14svc (strin
         'reply manglings: unversioned header, bad version, truncated payload, negative/zero size, foreign reply name, unknown '
         'field, wrong-typed success, duplicated success, empty EXCEPTION struct, trailing bytes, other seqid; every reply is pushed through 3 (quick) / 5 (thorough) '
         'chunkings out of: whole, 1-byte reads, splits inside the length prefix, random cuts, cut at the frame end with a second '
-        'frame behind it, 0-byte read after k bytes / script end; both socket classes; partial send() on the write side. '
+        'frame behind it, 0-byte read after k bytes / script end; both socket classes; partial send() on the write side; '
+        'sequences of 2-5 calls of varying encoded size (long->short for every ordered pair of methods, growing, equal, alternating, '
+        'mixed incl. rejected calls) through ONE ThriftSerializerSink + transport instance, each frame checked on its own. '
         'non-trivial = the call reached the wire and a reply was read; distinct by canonical JSON of (case, observation)')
 TRUSTED = ['Thrift library 0.24 (TBinaryProtocol pure Python, fastbinary, TApplicationException) and the generated-style '
            'Processor/Client of harness/ifaces/c14svc (written by hand in the compiler\'s layout) as the server-side oracle',
@@ -270,13 +272,18 @@ def gen_chunkings(r, k, force=None):
   return out
 
 
-def gen_rpc(r, nchunk, method=None, behaviour=None):
+def gen_rpc(r, nchunk, method=None, behaviour=None, size=None):
+  """size: None (random mix), 'small' (no planted defects, short values), 'big' (long strings / blobs)."""
   _iface()
   method = method or r.choice(_S['methods'])
   aspec = [e for e in _args_spec(method) if e is not None]
   flags = {}
   u = r.random()
-  if u < 0.06:
+  if size == 'big':
+    flags['big'] = True
+  elif size == 'small':
+    pass
+  elif u < 0.06:
     flags['bad'] = 'int'
   elif u < 0.09:
     flags['bad'] = 'surrogate'
@@ -323,11 +330,62 @@ def gen_rpc(r, nchunk, method=None, behaviour=None):
   return case
 
 
+SEQ_CHUNKS = ['whole', 'ones', 'pre1', 'pre2', 'pre3', 'rand', 'twos']     # deliveries that do not close the connection
+SEQ_PATTERNS = ['long-short', 'long-short', 'growing', 'equal', 'mixed', 'mixed', 'long-short-long']
+
+
+def gen_seq(r, pattern=None, methods=None):
+  """2-5 calls of varying encoded size through one sink chain instance and one connection."""
+  _iface()
+  twoway = [m for m in _S['methods'] if _result_cls(m) is not None]
+  pattern = pattern or r.choice(SEQ_PATTERNS)
+  n = len(methods) if methods else r.choice([2, 2, 3, 4, 5])
+  if pattern == 'long-short':
+    sizes = ['big'] + ['small'] * (n - 1)
+  elif pattern == 'growing':
+    sizes = ['small'] * (n - 1) + ['big']
+  elif pattern == 'long-short-long':
+    sizes = [['big', 'small'][i % 2] for i in range(n)]
+  elif pattern == 'equal':
+    sizes = ['equal'] * n
+  else:
+    sizes = [r.choice(['big', 'small', None]) for _ in range(n)]
+  ops = []
+  first = None
+  for i in range(n):
+    m = methods[i] if methods else r.choice(twoway)
+    if sizes[i] == 'equal':
+      if first is None:
+        first = gen_rpc(r, 1, method=m, size='small')
+      c = dict(first, handler=gen_rpc(r, 1, method=first['method'], size='small')['handler'])
+    else:
+      c = gen_rpc(r, 1, method=m, size=sizes[i])
+      if sizes[i] is None and r.random() < 0.5:
+        pass          # may carry a planted out-of-range int / surrogate: the call is rejected, the next one must be clean
+    op = {k: c[k] for k in ('method', 'args', 'kwargs', 'handler', 'send_cap', 'mseed')}
+    op.update(extra='none', mangle=None, ch={'k': r.choice(SEQ_CHUNKS), 'seed': r.randrange(1 << 30)})
+    ops.append(op)
+  return {'kind': 'seq', 'pattern': pattern, 'sock': r.choice(['varz', 'varz', 'scales']), 'ops': ops}
+
+
 def gen_cases(tier, seed):
   _iface()
   n = 1300 if tier == 'quick' else 14000
+  nseq = 220 if tier == 'quick' else 2500
   nchunk = 3 if tier == 'quick' else 5
   out = []
+  # sequences through one sink instance: every ordered pair of two-way methods, long call first, short call second
+  twoway = [m for m in _S['methods'] if _result_cls(m) is not None]
+  k = 0
+  for m1 in twoway:
+    for m2 in twoway:
+      r = C.case_rng(seed, PID + 'pair', k)
+      k += 1
+      if tier == 'quick' and m1 != m2 and r.random() < 0.5:
+        continue
+      out.append(gen_seq(r, pattern='long-short', methods=[m1, m2]))
+  for j in range(nseq):
+    out.append(gen_seq(C.case_rng(seed, PID + 'seq', j)))
   # deterministic grid: every method x every applicable handler behaviour x both sockets, all chunk kinds
   i = 0
   for m in _S['methods']:
@@ -375,6 +433,8 @@ def search_cases(tier, seed, diverging):
   for i in range(3000):
     r = C.case_rng(seed + 104729, PID, i)
     out.append(gen_rpc(r, 2, behaviour=r.choice(['ret', 'retnone', 'declared', 'app'])))
+  for i in range(1000):
+    out.append(gen_seq(C.case_rng(seed + 104729, PID + 'seq', i)))
   return out
 
 
@@ -1131,34 +1191,52 @@ def describe(case, obs):
 
 def stats(cases, obs):
   out = {'outcome_kinds': {}, 'methods': {}, 'chunkings': {}, 'mangles': {}, 'sockets': {}, 'inner_exception_classes': {},
-         'runs': 0, 'eof_runs': 0, 'calls_rejected_unencodable': 0, 'partial_send_cases': 0, 'non_ascii_calls': 0}
+         'runs': 0, 'eof_runs': 0, 'calls_rejected_unencodable': 0, 'partial_send_cases': 0, 'non_ascii_calls': 0,
+         'sequences': 0, 'sequence_calls': 0, 'sequence_lengths': {}, 'sequence_size_steps': {'shorter': 0, 'equal': 0, 'longer': 0},
+         'sequence_calls_after_rejected_call': 0}
 
   def bump(d, k):
     d[str(k)] = d.get(str(k), 0) + 1
-  for c, o in zip(cases, obs):
+  for c0, o in zip(cases, obs):
     if not isinstance(o, dict) or 'runs' not in o:
       continue
-    bump(out['methods'], c.get('method'))
-    bump(out['mangles'], c.get('mangle'))
-    bump(out['sockets'], c.get('sock'))
-    if c.get('send_cap') and c.get('sock') == 'scales':
-      out['partial_send_cases'] += 1
-    if any(ord(ch) > 127 for ch in str(c.get('args')) + str(c.get('kwargs'))):
-      out['non_ascii_calls'] += 1
-    for ch, r in zip(c.get('ops', [{'k': 'timeout'}]), o['runs']):
-      out['runs'] += 1
-      bump(out['chunkings'], ch['k'])
-      cl = r['caller']
-      if 'raise' in cl:
-        k = 'app' if 'app' in cl else 'declared' if 'declared' in cl else cl.get('inner_cls')
-        bump(out['outcome_kinds'], 'raise:' + str(k) + ('' if cl.get('wrapped') else ':unwrapped'))
-        bump(out['inner_exception_classes'], cl.get('inner_cls'))
-        if cl.get('inner_cls') == 'EOFError' and cl.get('faulted'):
-          out['eof_runs'] += 1
-        if not r['sent']:
-          out['calls_rejected_unencodable'] += 1
-      elif 'ret' in cl:
-        bump(out['outcome_kinds'], 'none' if cl['ret'] is None else 'value')
-      else:
-        bump(out['outcome_kinds'], 'other')
+    if c0.get('kind') == 'seq':
+      out['sequences'] += 1
+      bump(out['sequence_lengths'], len(c0['ops']))
+      units = [(_call_case(c0, op), [op['ch']], [r]) for op, r in zip(c0['ops'], o['runs'])]
+      prev = None
+      for r in o['runs']:
+        n = len(r['sent'])
+        out['sequence_calls'] += 1
+        if prev is not None:
+          out['sequence_size_steps']['shorter' if n < prev else 'equal' if n == prev else 'longer'] += 1
+          if prev == 0:
+            out['sequence_calls_after_rejected_call'] += 1
+        prev = n
+    else:
+      units = [(c0, c0.get('ops', [{'k': 'timeout'}]), o['runs'])]
+    for c, chs, runs in units:
+      bump(out['methods'], c.get('method'))
+      bump(out['mangles'], c.get('mangle'))
+      bump(out['sockets'], c.get('sock'))
+      if c.get('send_cap') and c.get('sock') == 'scales':
+        out['partial_send_cases'] += 1
+      if any(ord(ch) > 127 for ch in str(c.get('args')) + str(c.get('kwargs'))):
+        out['non_ascii_calls'] += 1
+      for ch, r in zip(chs, runs):
+        out['runs'] += 1
+        bump(out['chunkings'], ch['k'])
+        cl = r['caller']
+        if 'raise' in cl:
+          k = 'app' if 'app' in cl else 'declared' if 'declared' in cl else cl.get('inner_cls')
+          bump(out['outcome_kinds'], 'raise:' + str(k) + ('' if cl.get('wrapped') else ':unwrapped'))
+          bump(out['inner_exception_classes'], cl.get('inner_cls'))
+          if cl.get('inner_cls') == 'EOFError' and cl.get('faulted'):
+            out['eof_runs'] += 1
+          if not r['sent']:
+            out['calls_rejected_unencodable'] += 1
+        elif 'ret' in cl:
+          bump(out['outcome_kinds'], 'none' if cl['ret'] is None else 'value')
+        else:
+          bump(out['outcome_kinds'], 'other')
   return out
